@@ -48,6 +48,9 @@ CLAUSE_TEXT = {
 }
 
 
+INTEGRITY = {"fl", "init", "step"}     # bookkeeping of the recorder itself, not clauses of the property
+
+
 def label_proj(lab):
     """model label -> [kind, function, line offset from the def line] as the scheduler reports it"""
     if lab == "start":
@@ -278,6 +281,50 @@ def validate_traces(files, shard=400, timeout=900):
     return sum(n for _, n in shards), allbad
 
 
+def validator_selftest(files):
+    """vacuity guard for the trace validator: corrupt ONE field of a recorded, accepted run in three ways and demand
+    that TLC rejects each copy with the expected clause"""
+    base = None
+    for path in files:
+        with open(path) as f:
+            for line in f:
+                tr = json.loads(line)
+                st = tr["st"]
+                if (len(tr["cfg"]["scripts"]) >= 2 and st[-1]["fin"] and all(st[-1]["fin"])
+                        and any(any(x > 0 for x in s["fl"]) for s in st)):
+                    base = tr
+                    break
+        if base:
+            break
+    if base is None:
+        return {"corruptions": 0, "note": "no complete conforming run available (drift)"}
+    k = next(i for i, s in enumerate(base["st"]) if any(x > 0 for x in s["fl"]))
+    cases = []
+    for field, idx, val, clause in (("gc", k, True, "gc-on"), ("act", k, -1, "neg"),
+                                    ("gc", len(base["st"]) - 1, not base["cfg"]["gc0"], "restore")):
+        c = json.loads(json.dumps(base))
+        c["st"][idx][field] = val
+        cases.append((c, clause, idx + 1))
+    d = tempfile.mkdtemp(prefix="gcself-", dir=C.scratch())
+    sp = os.path.join(d, "corrupt.ndjson")
+    with open(sp, "w") as f:
+        f.write(json.dumps(base) + "\n")
+        for c, _, _ in cases:
+            f.write(json.dumps(c) + "\n")
+    rc, out = C.run_tlc("TraceGc.tla", cfg="Empty.cfg", env={"TRACE_FILE": sp}, timeout=300)
+    bad, done = C.parse_event_output(out)
+    if done != len(cases) + 1:
+        raise C.MachineryError("validator self-test: TLC did not consume the corrupted traces\n" + out[-2000:])
+    got = {(i, c): x for i, c, x in bad}
+    if any(i == 1 for i, _c in got):
+        raise C.MachineryError("validator self-test: the uncorrupted run is rejected: " + str(bad))
+    for n, (_c, clause, idx) in enumerate(cases):
+        if (n + 2, clause) not in got or int(got[(n + 2, clause)]) != idx:
+            raise C.MachineryError(f"validator self-test: corruption #{n + 1} (expect {clause} at state {idx}) not rejected: {bad}")
+    return {"corruptions": len(cases), "rejected": len(cases),
+            "cases": [f"{clause} at state {idx}" for _c, clause, idx in cases]}
+
+
 # ----------------------------------------------------------------------------------------------------------------
 # tiers
 # ----------------------------------------------------------------------------------------------------------------
@@ -285,7 +332,7 @@ def tier_plan(tier):
     """model configs: (cfg name, max plain paths or None=all, condom paths: number or 'all' combos)"""
     if tier == "quick":
         return [("EX", None, 40), ("EEXX", None, 40), ("EX_EX", None, 150), ("EEXX_EX", None, 300),
-                ("EEXX_EX_EX", 500, 200), ("XEXX", None, 0), ("XEX_X", None, 0)]
+                ("EEXX_EX_EX", 1000, 300), ("XEXX", None, 0), ("XEX_X", None, 0)]
     return [("EX", None, "all"), ("EEXX", None, "all"), ("EX_EX", None, "all"), ("EEXX_EX", None, "all"),
             ("EX_EX_EX", None, 3000), ("EEXX_EX_EX", None, 3000), ("XEXX", None, 0), ("XEX_X", None, 0)]
 
@@ -403,7 +450,10 @@ def check(pid, tier, regen=False):
                            "paths_done": len(res["results"]), "paths": len(ch)})
     files = [tf for _, tf in results]
     t2 = time.time()
-    ntr, bad = validate_traces(files)
+    with ThreadPoolExecutor(max_workers=2) as ex:
+        fut = ex.submit(validator_selftest, files)
+        ntr, bad = validate_traces(files)
+        selftest = fut.result()
     t_validate = time.time() - t2
 
     # ---- drift: fall back to the harness's own exploration, abstract spec only ---------------------------------
@@ -413,30 +463,45 @@ def check(pid, tier, regen=False):
             print("SPEC-DRIFT property=C19 " + json.dumps(d, default=str)[:900])
         print(f"SPEC-DRIFT property=C19 {len(drifts)} of {npaths} replayed paths left the line-level model; exploring "
               "the line interleavings of the code itself and validating them against the abstract spec")
-        ejobs, emeta = [], []
-        for scripts, drivers, nparts in explore_plan(tier):
-            for gc0 in (True, False):
-                for part in range(nparts):
-                    ejobs.append({"kind": "explore", "scripts": scripts, "gc0": gc0, "drivers": drivers,
-                                  "nparts": nparts, "part": part, "split_depth": 6 if nparts > 1 else 0,
-                                  "budget_s": 70 if tier == "quick" else 900})
-                    emeta.append(("|".join(scripts), gc0, drivers))
         t3 = time.time()
-        eres = run_jobs(ejobs, timeout=150 if tier == "quick" else 1500)
         explore = {"executions": 0, "states": 0, "transitions": 0, "steps": 0, "deadlocks": 0, "hangs": 0,
-                   "incomplete": [], "configs": len(ejobs)}
-        for (res, _tf), meta in zip(eres, emeta):
-            for k in ("executions", "states", "transitions", "steps", "deadlocks", "hangs"):
-                explore[k] += res[k]
-            if not res["complete"]:
-                explore["incomplete"].append(meta[0])
-        n2, bad2 = validate_traces([tf for _, tf in eres])
-        ntr += n2
-        bad.extend(bad2)
+                   "incomplete": [], "configs": 0, "phases": []}
+        # phase 1: one and two threads (complete); phase 2: three threads - only needed while nothing was rejected
+        eplan = explore_plan(tier)
+        for phase, sel in (("<=2 threads", [p for p in eplan if len(p[0]) <= 2]),
+                           ("3 threads", [p for p in eplan if len(p[0]) > 2])):
+            if bad and phase == "3 threads":
+                explore["phases"].append(phase + ": skipped, a rejection is already established")
+                break
+            ejobs, emeta = [], []
+            for scripts, drivers, nparts in sel:
+                for gc0 in (True, False):
+                    for part in range(nparts):
+                        ejobs.append({"kind": "explore", "scripts": scripts, "gc0": gc0, "drivers": drivers,
+                                      "nparts": nparts, "part": part, "split_depth": 6 if nparts > 1 else 0,
+                                      "budget_s": 45 if tier == "quick" else 900})
+                        emeta.append(("|".join(scripts), gc0, drivers))
+            eres = run_jobs(ejobs, timeout=150 if tier == "quick" else 1500)
+            explore["configs"] += len(ejobs)
+            explore["phases"].append(phase)
+            for (res, _tf), meta in zip(eres, emeta):
+                for k in ("executions", "states", "transitions", "steps", "deadlocks", "hangs"):
+                    explore[k] += res[k]
+                if not res["complete"]:
+                    explore["incomplete"].append(meta[0])
+            n2, bad2 = validate_traces([tf for _, tf in eres])
+            ntr += n2
+            bad.extend(bad2)
         explore["wall_s"] = round(time.time() - t3, 1)
         explore["incomplete"] = sorted(set(explore["incomplete"]))
 
     # ---- verdicts: only clauses of the abstract spec -----------------------------------------------------------
+    integrity = [b for b in bad if b[1] in INTEGRITY]
+    if integrity and len(integrity) == len(bad):
+        tr, clause, k = integrity[0]
+        raise C.MachineryError(f"recorded run rejected only by the bookkeeping clause '{clause}' ({CLAUSE_TEXT[clause]}) at "
+                               f"state {k}: harness/trace integrity problem, not a verdict\n"
+                               + json.dumps({"cfg": tr["cfg"], "drv": tr["drv"], "sched": tr["sched"]})[:1500])
     best = {}
     for tr, clause, k in bad:
         key = (clause, json.dumps(tr["cfg"], sort_keys=True), tr["drv"])
@@ -473,6 +538,7 @@ def check(pid, tier, regen=False):
         "line_steps_replayed": nsteps,
         "disabled_step_probes": nprobes,
         "abstract_rejections": len(bad),
+        "validator_selftest": selftest,
         "drift": len(drifts),
         "drift_first": drifts[:2],
         "fallback_exploration": explore if explore else "not needed (code follows the line-level model)",
